@@ -41,12 +41,17 @@ ByteOps == {Req("read", n, 0, 0, q) : n \in ByteReadNs, q \in QPs}
            \cup {Req("readbyte", 1, 0, 0, FALSE)}
            \cup {Req("seek", 0, o, w, FALSE) : o \in ByteSeekFwd \cup {0 - x : x \in ByteSeekBack}, w \in 0 .. 2}
 ReadOnly == {r \in BitOps : r.op \in {"read", "readfull"}}
+\* sections that reach beyond the end of what they are a section of (their denotation stops at that end): reads only - SeekBits from
+\* the end answers with the declared length, and a multi reader over such a section is outside the contract (ReaderStack.tla, Overlong)
+Over == {Sec(Leaf("a"), 8, 9), Sec(Sec(Leaf("a"), 3, 9), 5, 9), Sec(Sec(Leaf("b"), 0, 11), 3, 13), Sec(Mul(Leaf("a"), Leaf("b")), 20, 15)}
+ReadsAt == {r \in BitOps : r.op \in {"read", "readat", "readfull"}}
 ReadOnlyB == {r \in ByteOps : r.op \in {"read", "readfull", "readbyte"}}
 
 Lens == [a |-> LenA, b |-> LenB, f |-> LenF]
 Cases == {[term |-> t, lens |-> Lens, reqs |-> h] : t \in BitTerms, h \in [1 .. K -> BitOps]}
          \cup {[term |-> t, lens |-> Lens, reqs |-> h] : t \in ByteTerms, h \in [1 .. K -> ByteOps]}
          \cup {[term |-> t, lens |-> Lens, reqs |-> h] : t \in {x \in TopOnly : x.t = "limit"}, h \in [1 .. K -> ReadOnly]}
+         \cup {[term |-> t, lens |-> Lens, reqs |-> h] : t \in Over, h \in [1 .. K -> ReadsAt]}
          \cup {[term |-> t, lens |-> Lens, reqs |-> h] : t \in {x \in TopOnly : x.t = "ioreader"}, h \in [1 .. K -> ReadOnlyB]}
 
 VARIABLE g
